@@ -46,7 +46,7 @@ void h_lemma_once(void)
   LEMMA_STATE
   StreamErrorElement se;
   /* no address fallback is pending when a session opens (assumed: see unit.py `assumed`, A-TRYNEXT) */
-  __CPROVER_assume(!d.sessionStarted && LOG_SYNC_OPEN && LOG_SYNC_CLOSE && d.nextAddressState != NAS__TryNext);
+  __CPROVER_assume(!d.sessionStarted && !gh_step_pending && LOG_SYNC_OPEN && LOG_SYNC_CLOSE && d.nextAddressState != NAS__TryNext);
   unsigned conn0 = gh_ev_connected, disc0 = gh_ev_disconnected;
   QXmppOutgoingClient_openSession(&c);
   __CPROVER_assert(d.sessionStarted && gh_ev_connected == conn0 + 1, "[lemma.session_established_is_reported_once_when_the_session_opens]");
